@@ -78,6 +78,7 @@ type Agent struct {
 	gates   map[string]bool
 	gateMu  sync.Mutex
 	snapCh  chan string
+	ackCh   chan string
 	CtlPath string
 }
 
@@ -105,7 +106,7 @@ func Start(bin string, dir string, cfg Cfg) (*Agent, error) {
 		return nil, err
 	}
 
-	a := &Agent{Cfg: cfg, Dir: dir, done: make(chan struct{}), Events: make(chan Event, 4096), gates: map[string]bool{}, snapCh: make(chan string, 4)}
+	a := &Agent{Cfg: cfg, Dir: dir, done: make(chan struct{}), Events: make(chan Event, 4096), gates: map[string]bool{}, snapCh: make(chan string, 4), ackCh: make(chan string, 16)}
 	a.HTTPPort = freePort()
 
 	conf := map[string]interface{}{
@@ -273,6 +274,11 @@ func (a *Agent) acceptCtl() {
 				default:
 				}
 			}
+		case strings.HasPrefix(line, "OK "):
+			select {
+			case a.ackCh <- line[3:]:
+			default:
+			}
 		case strings.HasPrefix(line, "SNAP "):
 			select {
 			case a.snapCh <- line[5:]:
@@ -312,11 +318,37 @@ func (a *Agent) Gate(name string, on bool) error {
 	return a.ctlSend("UNGATE " + name)
 }
 
+// Report switches the reporting of every scheduling point on or off.
+func (a *Agent) Report(on bool) error {
+	if on {
+		return a.ctlSend("REPORT 1")
+	}
+
+	return a.ctlSend("REPORT 0")
+}
+
 // Go releases the goroutine parked with event sequence number seq.
 func (a *Agent) Go(seq int) error { return a.ctlSend(fmt.Sprintf("GO %d", seq)) }
 
-// Set sends a tuning command (SEIDS, TEIDCURSOR, DDN ...).
-func (a *Agent) Set(cmd string) error { return a.ctlSend(cmd) }
+// Set sends a tuning command (SEIDS ..., TEIDCURSOR n) and waits for its acknowledgement.
+func (a *Agent) Set(cmd string) error {
+	for len(a.ackCh) > 0 {
+		<-a.ackCh
+	}
+
+	if err := a.ctlSend(cmd); err != nil {
+		return err
+	}
+
+	select {
+	case <-a.ackCh:
+		return nil
+	case <-a.done:
+		return fmt.Errorf("agent exited")
+	case <-time.After(2 * time.Second):
+		return fmt.Errorf("no acknowledgement for %q", cmd)
+	}
+}
 
 // Snapshot asks for the guarded read-only state snapshot (JSON).
 func (a *Agent) Snapshot(timeout time.Duration) (string, error) {
